@@ -34,12 +34,15 @@ TR_SPELLINGS = {
     "comma": "T{t}{N}, R{r}{W}",
     "twp_rge": "Twp {t}{N}, Rge {r}{W}",
 }
+# spellings without N/S and E/W (the defaults n / w fill them in): only used where a property asks for them
+NODIR_SPELLINGS = {"nodir": "T{t}-R{r}", "nodir_words": "Township {t}, Range {r}", "nodir_abbr": "Twp. {t}, Rge. {r}"}
+TR_SPELLINGS_ALL = dict(TR_SPELLINGS, **NODIR_SPELLINGS)
 _WORD = {"n": "North", "s": "South", "e": "East", "w": "West"}
 
 
 def render_twprge(g, spelling=None):
     sp = spelling or g["tr_sp"]
-    return TR_SPELLINGS[sp].format(
+    return TR_SPELLINGS_ALL[sp].format(
         t=g["twp"], r=g["rge"], N=g["ns"].upper(), W=g["ew"].upper(), n=g["ns"], w=g["ew"],
         North=_WORD[g["ns"]], West=_WORD[g["ew"]])
 
@@ -183,6 +186,8 @@ def _fix(layout):
         out = []
         for gi, g in enumerate(groups):
             g = dict(g)
+            if g["tr_sp"] in NODIR_SPELLINGS:
+                g["ns"], g["ew"] = "n", "w"
             same = g.pop("same_as", None)
             if same is not None and same < gi:
                 for k in ("twp", "ns", "rge", "ew"):
